@@ -18,7 +18,7 @@ RULE = (
     "ill-typed call), used as a test and as either comparison operand; O: every comparison over 8 operand kinds; each basic "
     "expression placed at every position (top, under !, either side of && and ||, in parentheses, inside a nested filter); "
     "depth-2 nestings of calls (thorough: 3). S: every spelling (both quote styles, dot/bracket forms, one blank at every ABNF S position) of a sample of the well-typed expressions at three positions must compile; L: index and slice bounds at limit-1, limit, limit+1 (both signs) under the "
-    "default environment and one narrowed to +-10; leading zeros; list shapes; uncompared literals at every position. "
+    "default environment, one narrowed to +-10 and two with asymmetric limits (-3..10, -10..3); leading zeros; list shapes; uncompared literals at every position. "
     "state = distinct (environment, query text); non-trivial = the classifier says well-typed (must compile)"
 )
 ASSUMPTIONS = [
